@@ -9,7 +9,10 @@ import (
 	"github.com/anyproto/any-sync/util/crypto"
 )
 
-var ErrInvalidSignature = errors.New("invalid signature")
+var (
+	ErrInvalidSignature = errors.New("invalid signature")
+	ErrInvalidKeyPeerId = errors.New("key-peer id does not match the signed key and peer")
+)
 
 type KeyValue struct {
 	KeyPeerId string
@@ -53,8 +56,11 @@ func KeyValueFromProto(proto *spacesyncproto.StoreKeyValue, verify bool) (kv Key
 	kv.PeerId = peerId.PeerId()
 	kv.Key = innerValue.Key
 	kv.AclId = innerValue.AclHeadId
-	// TODO: check that key-peerId is equal to key+peerId?
 	if verify {
+		// the slot is not covered by the signatures: it must be the one the signed bytes name
+		if kv.KeyPeerId != kv.Key+"-"+kv.PeerId {
+			return kv, ErrInvalidKeyPeerId
+		}
 		if verify, _ = identity.Verify(proto.Value, proto.IdentitySignature); !verify {
 			return kv, ErrInvalidSignature
 		}
